@@ -14,9 +14,20 @@ HARNESSES = [
     {"pkg": "c20nav", "sub": "nav"},
 ]
 MANIFEST = {
-    "text": "TODO",
-    "note": "TODO",
-    "technique": "TODO",
+    "text": "Machine-checked (Coq, no axioms): the model of astar.Find - whole-path frontier on a transcription of container/heap, "
+            "closed set tested at pop time - returns a valid path, of minimal cost when the heuristic is consistent, returns nothing "
+            "exactly when the goal is unreachable and stays within its fuel on finite graphs; the repaired ClosestPoint is on the "
+            "segment and closest; on-segment, collinear overlap (geometric reading), circle relations and symmetric centroids match "
+            "their definitions over exact rationals; ray casting equals the orientation-test definition on every strictly convex polygon "
+            "(any number of vertices, both orientations; boundary points excluded); the nav-mesh path checker is sound. On every run the Go code is compared with the models on all 3x3 grid layouts x all start/goal "
+            "pairs (exact path, tie-breaking included), random weighted graphs, ~3000 geometric calls on dyadic/degenerate inputs "
+            "(tolerance 1e-9 inside Coq) and ~1000 nav-mesh queries through the verified checker, with brute-force monitors "
+            "(Dijkstra/BFS, big-rational geometry, dense sampling).",
+    "note": "Models are hand-written (tied by differential runs). Floating-point rounding is not modelled; nav-mesh funnel is only "
+            "output-checked (T4). Five small defects of /repo are "
+            "modelled as repaired: fixes/C20-*.patch (closest point precedence + zero length, rectangle centroid (x,x), segment-overlap "
+            "index, nav-mesh portal angles in radians); on the unpatched tree the check reports VIOLATION with replay files.",
+    "technique": "executable Gallina models + invariant proofs (A*, binary heap), nra/lra over Q, verified result checker, differential testing",
 }
 
 
